@@ -128,6 +128,17 @@ def pop_modify_rebuild():
     return lsl.GraphBuilder().add(*nodes.values(), *vars_.values()).build_model()
 
 
+def mvn_batch():
+    """event-shaped (multivariate) and batch-shaped distributions, matrix-valued observations"""
+    import liesel.model as lsl
+    tfd, tfb = _tf()
+    loc = lsl.param(jnp.array([0.1, -0.3]), lsl.Dist(tfd.MultivariateNormalDiag, loc=lsl.Var(jnp.zeros(2), name="loc_mean"), scale_diag=lsl.Var(jnp.array([2.0, 3.0]), name="loc_sd")), name="loc")
+    sd = lsl.param(jnp.array([0.8, 1.2]), lsl.Dist(tfd.Gamma, concentration=lsl.Var(2.0, name="sd_a"), rate=lsl.Var(jnp.array([1.0, 1.5]), name="sd_b")), name="sd")
+    y = lsl.obs(jnp.array([[0.3, -0.2], [1.0, 0.4], [-0.5, 0.1]]), lsl.Dist(tfd.MultivariateNormalDiag, loc=loc, scale_diag=sd), name="y")
+    z = lsl.obs(jnp.array([[0.3, -0.2], [1.0, 0.4]]), lsl.Dist(tfd.Normal, loc=loc, scale=sd), name="z")      # batch of 2, sample of 2
+    return lsl.GraphBuilder().add(y, z).build_model()
+
+
 FAMILY = {
     "regression(transformed scale)": lambda: regression(True, True),
     "regression(per_obs=False)": lambda: regression(False, True),
@@ -139,6 +150,7 @@ FAMILY = {
     "user-supplied totals": user_totals,
     "auto_transform": auto_transform,
     "pop-modify-rebuild": pop_modify_rebuild,
+    "multivariate+batch shapes": mvn_batch,
 }
 CONCRETE_NAMES = ("K", "rank", "X", "Xd")       # structural inputs kept concrete (penalties, ranks, design matrices)
 
